@@ -155,9 +155,9 @@ def queue(self):
     return self._queue
 ''')
 
-spec('Resource', '_do_put', what='grant iff fewer than capacity users: append user, stamp usage_since, succeed')('''
+spec('Resource', '_do_put', what='grant iff one more user still fits into capacity (also a fractional one): append user, stamp usage_since, succeed')('''
 def _do_put(self, event):
-    if len(self._users) < self.capacity:
+    if len(self._users) + 1 <= self.capacity:
         self._users.append(event)
         event.usage_since = self._env.now
         event.succeed()
@@ -214,7 +214,7 @@ def __init__(self, by, usage_since, resource):
 spec('PreemptiveResource', '_do_put', what='when full and the request preempts: victim = worst-ranked user by the full key; '
                                           'evict iff its key is strictly worse; then the ordinary grant test')('''
 def _do_put(self, event):
-    if len(self.users) >= self.capacity and event.preempt:
+    if self.users and len(self.users) + 1 > self.capacity and event.preempt:
         preempt = sorted(self.users, key=lambda e: e.key)[-1]
         if preempt.key > event.key:
             self.users.remove(preempt)
@@ -224,17 +224,17 @@ def _do_put(self, event):
 
 # ------------------------------------------------------------------ container.py
 
-spec('ContainerPut', '__init__', what='non-positive amounts refused before the request is enqueued')('''
+spec('ContainerPut', '__init__', what='non-positive and non-finite amounts refused before the request is enqueued')('''
 def __init__(self, container, amount):
-    if amount <= 0:
+    if not 0 < amount < float('inf'):
         raise ValueError()
     self.amount = amount
     super().__init__(container)
 ''')
 
-spec('ContainerGet', '__init__', what='non-positive amounts refused before the request is enqueued')('''
+spec('ContainerGet', '__init__', what='non-positive and non-finite amounts refused before the request is enqueued')('''
 def __init__(self, container, amount):
-    if amount <= 0:
+    if not 0 < amount < float('inf'):
         raise ValueError()
     self.amount = amount
     super().__init__(container)
